@@ -488,6 +488,17 @@ class HostGen:
                 avail.append(o2)
             elif x < 0.85 and self.with_funcs:
                 out.append(self.node("f", [self.pick(avail)], [o], domain="local"))
+            elif x < 0.88 and self.with_cond and depth < 2:
+                # Loop(M=2, cond=true, v): body (i, cond_in, v_in) -> (cond_out, v_out), reading outer values too
+                vin, cin, it, cout = self.name("lv"), self.name("lc"), self.name("li"), self.name("lo")
+                bns, bav = self.nodes(avail + [vin], self.rng.randint(1, 4), depth + 1)
+                bns = [self.node("Identity", [cin], [cout])] + bns
+                body = helper.make_graph(
+                    bns, self.name("loop"),
+                    [helper.make_tensor_value_info(it, TensorProto.INT64, []), helper.make_tensor_value_info(cin, TensorProto.BOOL, []), VT(vin)],
+                    [helper.make_tensor_value_info(cout, TensorProto.BOOL, []), VT(bns[-1].output[0])])
+                self.hist["loop_d%d" % (depth + 1)] = self.hist.get("loop_d%d" % (depth + 1), 0) + 1
+                out.append(self.node("Loop", ["M", "ctrue", self.pick(avail)], [o], body=body))
             elif x < 0.95 and self.with_cond and depth < 2:
                 tb = self.body(avail, depth + 1, "then")
                 eb = self.body(avail, depth + 1, "else")
@@ -518,6 +529,8 @@ def gen_host(rng, size: int, with_funcs: bool, with_cond: bool, extra_inits: lis
             avail.append(nm)
     if with_cond:
         inputs.append(helper.make_tensor_value_info("c", TensorProto.BOOL, []))
+        inits.append(onnx.numpy_helper.from_array(np.array(2, dtype=np.int64), "M"))
+        inits.append(onnx.numpy_helper.from_array(np.array(True), "ctrue"))
     ns, av = hg.nodes(avail, size, 0)
     produced = [o for n in ns for o in n.output]
     outs = [produced[-1]]
